@@ -212,6 +212,7 @@ def rule_unw(ctx, rep, rule="R-UNW", da=False, scope=None):
     for k, origins in tolerated.items():
         rep.notes.append("leak only on an internal-invariant panic (%s), not triggerable by user code, tolerated: %s" % ("/".join(sorted(origins)), k))
     rep.evaluations += npaths
+    rule_racy_assert(ctx, rep, scope=scope)  # ... unless the "invariant" is a claim about a fresh reading of the count word that a racing thread can falsify
     return npaths
 
 
@@ -401,16 +402,26 @@ def rule_writeback(ctx, rep, rule="R-WRITEBACK"):
         for b in F.body_list:
             if b["kind"] not in ("Fn", "AssocFn") or b["key"] in A.errors:
                 continue
-            if not any(F.ty(t)["k"] == "ref" and F.ty(t)["mut"] and F.tokens(F.ty(t)["t"])[0] > 0 for t in b.get("inputs", [])):
+            lent = [F.handle_name(F.ty(t)["t"]) for t in b.get("inputs", []) if F.ty(t)["k"] == "ref" and F.ty(t)["mut"] and F.tokens(F.ty(t)["t"])[0] > 0]
+            if not lent:
                 continue
             key = b["key"]
             seen_site = False
             bad = None
+
+            def _dup(e):
+                # the bitwise duplicate of the lent handle: read out of the place, or rebuilt field by field as a literal of the same type
+                d = e["detail"] if isinstance(e["detail"], dict) else {}
+                if e["kind"] != "MAKE":
+                    return False
+                via = str(d.get("via", ""))
+                return via.endswith("ptr::read") or (via == "aggregate" and d.get("handle") in lent)
+
             for p in A.paths[key]:
                 if p.exit not in ("ret", "unw"):
                     continue
                 ev = p.events
-                i_read = next((i for i, e in enumerate(ev) if e["kind"] == "MAKE" and isinstance(e["detail"], dict) and str(e["detail"].get("via", "")).endswith("ptr::read")), None)
+                i_read = next((i for i, e in enumerate(ev) if _dup(e)), None)
                 if i_read is None:
                     continue
                 seen_site = True
@@ -421,6 +432,8 @@ def rule_writeback(ctx, rep, rule="R-WRITEBACK"):
                 for e in ev[i_rt + 1 :]:
                     d = e["detail"] if isinstance(e["detail"], dict) else {}
                     if e["kind"] == "HIDE" and "write" in str(d.get("via", "")):
+                        wrote = True
+                    if e["kind"] == "RETARGET" and d.get("whole"):
                         wrote = True
                     if e["kind"] == "DROP" and guard_writes_back(F, A, d.get("adt")):
                         wrote = True
@@ -433,6 +446,177 @@ def rule_writeback(ctx, rep, rule="R-WRITEBACK"):
                 rep.bad(rule, key, path_report(F, b, bad, "the handle was read out of `&mut self`, a callee re-pointed the copy (it released the old block and now owns a new one), and this %s exit leaves without writing the copy back: the caller's handle still points at the released block (use-after-free) and the new block leaks" % ("unwinding" if bad.exit == "unw" else "normal")), F.loc(b), tag)
             else:
                 rep.ok(rule, key, cfg=tag)
+    return n
+
+
+def _count_reader(F, A, key):
+    """A local function that does nothing but load the count word and hand the value back (`Arc::count`, `strong_count`)."""
+    prs = [p for p in A.paths.get(key, []) if p.exit == "ret"]
+    if not prs:
+        return False
+    for p in prs:
+        kinds = [e["kind"] for e in p.events if e["kind"] not in ("STD", "BRANCH")]
+        if "LOAD" not in kinds:
+            if not any(e["kind"] == "CALL" and isinstance(e["detail"], dict) and e["detail"].get("callee") != key and _count_reader(F, A, e["detail"].get("callee")) for e in p.events):
+                return False
+        if any(x for x in p.vec):
+            return False
+    return True
+
+
+def rule_racy_assert(ctx, rep, rule="R-RACY-ASSERT", scope=None):
+    """An assertion about a *second* reading of the count word. The only thing the holder of a handle knows about the count while
+    other threads clone and drop is `count >= 1`. A library assertion (debug or not) that compares a fresh load of the count
+    with a constant and can fail for some value >= 1 is therefore reachable in a racing schedule - it is not an
+    "internal invariant" - and its unwinding exit is judged like a panic a caller can provoke: no handle may be leaked or
+    released twice on it (`debug_assert!(Arc::count(&this) > 1)` after a failed uniqueness test, with `this` disarmed)."""
+    n = 0
+    for tag, F, E in ctx.each():
+        A = analysis(tag, F, E)
+        only = scope(F) if scope else None
+        for b in F.body_list:
+            if not is_api(F, b) or b["key"] in A.errors or (only is not None and b["key"] not in only):
+                continue
+            key = b["key"]
+            cls, exp = sig_class(F, b)
+            base = exp if cls == "DROP-IMPL" else 0
+            B = None
+            done = set()
+            for p in A.paths[key]:
+                if p.exit != "unw" or (p.origin or "std") not in ("debug-assert", "maypanic"):
+                    continue
+                ev = p.events
+                ip = next((i for i, e in enumerate(ev) if e["kind"] in ("PANIC", "ASSERT-FAIL")), None)
+                if ip is None:
+                    continue
+                br = next((e for e in reversed(ev[:ip]) if e["kind"] == "BRANCH"), None)
+                if br is None or not isinstance(br["detail"], dict):
+                    continue
+                if B is None:
+                    B = cfg.Body(b)
+                t = b["blocks"][br["bb"]]["term"]
+                if t["k"] != "switch":
+                    continue
+                c = B.condition(t["discr"])
+                if not c or "op" not in c:
+                    continue
+                ka, kb = B.const_value(c["a"]), B.const_value(c["b"])
+                if (ka is None) == (kb is None):
+                    continue
+                var, k = (c["a"], kb) if ka is None else (c["b"], ka)
+                o = B.origin(var)
+                if o.get("kind") != "call":
+                    continue
+                r = o["term"].get("resolved")
+                callee = r["def"] if isinstance(r, dict) else o["term"].get("callee")
+                from . import atomics, model
+
+                direct = atomics.atomic_class(o["term"]) == model.ATOMIC_LOAD and atomics.receiver_is_count(F, B, o["term"])
+                if not direct and not _count_reader(F, A, callee):
+                    continue
+                truth = B.switch_truth(t)
+                tv = truth.get(br["detail"].get("to"))
+                if tv is None:
+                    continue
+                cond = tv != c["neg"]  # truth of `a <op> b` on the panicking side
+                op = c["op"] if ka is None else {"Lt": "Gt", "Le": "Ge", "Gt": "Lt", "Ge": "Le"}.get(c["op"], c["op"])  # normalised to `count <op> k`
+                sat = {"Eq": lambda n_: n_ == k, "Ne": lambda n_: n_ != k, "Lt": lambda n_: n_ < k, "Le": lambda n_: n_ <= k, "Gt": lambda n_: n_ > k, "Ge": lambda n_: n_ >= k}[op]
+                witness = next((n_ for n_ in (1, 2, k - 1, k, k + 1) if n_ >= 1 and sat(n_) == cond), None)
+                ik = "%s/assert-on-count:bb%d" % (key, br["bb"])
+                if ik in done:
+                    continue
+                n += 1
+                if witness is None:
+                    done.add(ik)
+                    rep.ok(rule, ik, cfg=tag)
+                    continue
+                i = imbalance(p.vec) - base
+                open_init = max(vget(p.vec, "init") - vget(p.vec, "make_agg"), 0)
+                i -= min(max(i, 0), open_init)
+                if i != 0:
+                    done.add(ik)
+                    rep.bad(rule, ik, path_report(F, b, p, "this assertion re-reads the count word and fails when it reads %d - which another thread's clone or drop can make it read while this thread holds its handle (all a holder knows is count >= 1) - and on that unwinding exit %s" % (witness, "a live handle is leaked (parked in ManuallyDrop / forgotten, never released)" if i > 0 else "an owner is released twice")), F.loc(b, t["span"]), tag)
+        rep.ok(rule, "assertions on a re-read count(positive control: rule ran)", cfg=tag)
+    return n
+
+
+SHARED_TO_NONNULL = "<core::ptr::non_null::NonNull<T> as core::convert::From<&T>>::from"
+PTR_PASS = ("<core::ptr::non_null::NonNull<T>>::new_unchecked", "<core::ptr::non_null::NonNull<T>>::cast", "<core::ptr::non_null::NonNull<T>>::as_ptr", "<*mut T>::cast", "<*const T>::cast", "<*const T>::cast_mut", "<*mut T>::cast_const",
+            "<core::ptr::non_null::NonNull<T>>::new", "<core::option::Option<T>>::unwrap", "<core::option::Option<T>>::unwrap_unchecked", "<core::option::Option<T>>::expect")
+
+
+def _shared_root(F, B, op, depth=0):
+    """Does the pointer operand derive - through moves, casts and the pointer-to-pointer conversions - from a shared borrow of a
+    whole allocation block (`&ArcInner<T>`, e.g. the result of `Box::leak` bound as `&T`, `&*boxed`)? Returns the span or None."""
+    if depth > 16:
+        return None
+    pl = operand_place(op)
+    if pl is None or pl["p"]:
+        return None
+    for d in B.defs().get(pl["l"], []):
+        if d[0] == "call":
+            t = d[2]
+            r = t.get("resolved")
+            path = r["def"] if isinstance(r, dict) else (t.get("callee") or "")
+            if path == SHARED_TO_NONNULL and t["args"]:
+                aty = F.ty(t["arg_tys"][0]) if t.get("arg_tys") else None
+                if aty and aty["k"] == "ref" and F.ty(aty["t"]).get("path") == F.inner_path:
+                    return t["span"]
+            if path in PTR_PASS and t["args"]:
+                x = _shared_root(F, B, t["args"][0], depth + 1)
+                if x:
+                    return x
+        else:
+            rv = d[3]
+            if rv["k"] in ("use", "cast"):
+                x = _shared_root(F, B, rv["op"], depth + 1)
+                if x:
+                    return x
+            elif rv["k"] == "rawptr" and not rv.get("mut") and rv["place"]["p"] == ["deref"]:
+                x = _shared_root(F, B, {"cp": {"l": rv["place"]["l"], "p": []}}, depth + 1)
+                if x:
+                    return x
+            elif rv["k"] == "ref" and not rv["mut"]:
+                ty = rv["place"].get("ty")
+                if ty is not None and F.ty(ty).get("path") == F.inner_path and rv["place"]["p"][-1:] == ["deref"]:
+                    # `&*p` re-borrowing a block as shared: where does p come from - a fresh Box / a `&mut`? then write access was given up here
+                    src = B.origin_local(rv["place"]["l"])
+                    if src.get("kind") == "call":
+                        r2 = src["term"].get("resolved")
+                        p2 = r2["def"] if isinstance(r2, dict) else (src["term"].get("callee") or "")
+                        if p2 in ("<alloc::boxed::Box<T, A>>::leak", "<alloc::boxed::Box<T, alloc::alloc::Global>>::new", "<alloc::boxed::Box<T, A>>::into_raw", "<alloc::boxed::Box<T, alloc::alloc::Global>>::into_raw"):
+                            return d[3].get("span") or src["term"]["span"]
+    return None
+
+
+def rule_write_provenance(ctx, rep, rule="R-PROVENANCE"):
+    """The pointer a constructor stores in a new owning handle is the one every later owner-only operation writes through (the count,
+    `get_mut`, `DerefMut` of a UniqueArc, the final drop and free). It must not have passed through a shared reference to the block
+    (`let inner: &ArcInner<T> = Box::leak(..); NonNull::from(inner)`): such a pointer may only be read through, every write through
+    it is undefined behaviour although the value and the count look right. Judged on the def-use chain of the pointer operand of every
+    handle literal."""
+    n = 0
+    for tag, F, E in ctx.each():
+        for b in F.body_list:
+            B = None
+            for bi, bl in enumerate(b["blocks"]):
+                for s in bl["stmts"]:
+                    if s["k"] != "assign" or s["rv"]["k"] != "agg" or s["rv"].get("agg") != "adt":
+                        continue
+                    hn = F.path_to_handle.get(s["rv"]["adt"])
+                    if hn not in ("Arc", "ThinArc", "OffsetArc", "UniqueArc"):
+                        continue
+                    if B is None:
+                        B = cfg.Body(b)
+                    n += 1
+                    ik = "%s/%s-literal:bb%d" % (b["key"], hn, bi)
+                    sp = None
+                    for o in s["rv"]["ops"]:
+                        sp = sp or _shared_root(F, B, o)
+                    if sp:
+                        rep.bad(rule, ik, "the block pointer stored in this new %s was obtained through a shared reference to the block (line %s): it carries no permission to write, so the count updates, get_mut / DerefMut and the final drop through this handle are undefined behaviour (Stacked/Tree Borrows) although value and count look right" % (hn, sp.get("line")), F.loc(b, s["span"]), tag)
+                    else:
+                        rep.ok(rule, ik, cfg=tag)
     return n
 
 
@@ -690,6 +874,56 @@ def rule_parked(ctx, rep, rule="R-PARKED"):
                     rep.bad(rule, ik, path_report(F, b, p, "a caller-supplied value of type %s is parked in ManuallyDrop (line %s) and the call at line %s can then unwind (%s) before the value has been handed over: nobody destroys it - it is lost" % (F.ts(ty), t["span"]["line"], e["span"]["line"], "user code" if p.origin == "user" else "a panic a caller can provoke, e.g. an overflowing length")), F.loc(b, t["span"]), tag)
                 else:
                     rep.ok(rule, ik, cfg=tag)
+    n += rule_forgotten(ctx, rep, rule)
+    return n
+
+
+def rule_forgotten(ctx, rep, rule="R-PARKED"):
+    """`mem::forget(val)` of a caller-supplied value (a by-value parameter whose type mentions a type parameter, needs dropping and
+    is not a handle) is the end of that value unless its bits were handed over first (`ptr::read(&val)`, a copy into a block):
+    forgotten without a hand-over anywhere in the function, nobody will ever destroy it - e.g. the value given to a *refused*
+    write, taken "out of the unwind path" by forgetting it instead of dropping it."""
+    n = 0
+    for tag, F, E in ctx.each():
+        A = analysis(tag, F, E)
+        for b in F.body_list:
+            if b["kind"] not in ("Fn", "AssocFn") or b["key"] in A.errors:
+                continue
+            B = None
+            for bi, bl in enumerate(b["blocks"]):
+                t = bl["term"]
+                if t["k"] != "call" or not t["args"]:
+                    continue
+                r = t.get("resolved")
+                path = r["def"] if isinstance(r, dict) else (t.get("callee") or "")
+                if path != "core::mem::forget":
+                    continue
+                targs = [a["t"] for a in (r["args"] if isinstance(r, dict) else t.get("callee_args") or []) if "t" in a]
+                if not targs:
+                    continue
+                ty = targs[0]
+                if F.tokens(ty)[0] or not F.mentions_param(ty) or F.ty(ty)["k"] in ("ref", "ptr"):
+                    continue
+                if B is None:
+                    B = cfg.Body(b)
+                o = B.origin(t["args"][0], through_casts=False)
+                if o.get("kind") != "arg":
+                    continue
+                al = o["arg"]
+                if not b["locals"][al].get("needs_drop_inner", True):
+                    continue
+                n += 1
+                ik = "%s/forgotten:%s" % (b["key"], F.ts(ty))
+                handed = False
+                for bj, t2 in B.calls():
+                    r2 = t2.get("resolved")
+                    p2 = r2["def"] if isinstance(r2, dict) else (t2.get("callee") or "")
+                    if p2 in UNPARK_CALLS and any(_rooted_local(B, a, al) for a in t2["args"]):
+                        handed = True
+                if handed:
+                    rep.ok(rule, ik, cfg=tag)
+                else:
+                    rep.bad(rule, ik, "a caller-supplied value of type %s (parameter _%d) is forgotten (line %s) although its bits were never handed over (no read/copy of it anywhere in the function): it is destroyed zero times, and whatever it owns stays held" % (F.ts(ty), al, t["span"]["line"]), F.loc(b, t["span"]), tag)
     return n
 
 
